@@ -4,6 +4,8 @@
 mod e_c02;
 mod e_c16;
 mod e_c18;
+mod exec;
+mod scen;
 mod sim;
 mod util;
 
@@ -14,6 +16,7 @@ fn dispatch(w: &[&str]) -> String {
         Some("varint") | Some("sid") => e_c16::handle(w),
         Some("dgram") => e_c18::handle(w),
         Some("frame") | Some("fs") => e_c02::handle(w),
+        Some("conn") => scen::handle(w),
         _ => "bad-op".into(),
     }
 }
